@@ -886,6 +886,44 @@ fn siblings_case(ch: &mut Choices<'_>, st: &mut Stats) -> CaseResult {
         Ok(())
     };
     round(&filters, "all alive", st)?;
+    // the same comparisons joined in one filter: each keeps its own answer
+    {
+        let (i, j) = (ch.draw(sibs.len()), ch.draw(sibs.len()));
+        let op = *ch.pick(&["and", "or", "xor", "&&", "||", "^^"]);
+        let lit = |k: usize| texts[k].trim_start_matches("s contains ").to_string();
+        let text = match ch.draw(3) {
+            0 => format!("s contains {} {op} s contains {}", lit(i), lit(j)),
+            1 => format!("s contains {} {op} not s contains {}", lit(i), lit(j)),
+            _ => format!("s contains {} {op} s contains {} {op} s contains {}", lit(i), lit(j), lit(i)),
+        };
+        let shape = if text.contains(" not ") { 1 } else if text.matches("contains").count() == 3 { 2 } else { 0 };
+        let f = compile(&scheme, &text, None, &sibs[i])?;
+        for h in &hays {
+            let (a, b) = (naive_contains(h, &sibs[i]), naive_contains(h, &sibs[j]));
+            let join = |x: bool, y: bool| match op {
+                "and" | "&&" => x && y,
+                "or" | "||" => x || y,
+                _ => x != y,
+            };
+            let want = match shape {
+                0 => join(a, b),
+                1 => join(a, !b),
+                _ => join(join(a, b), a),
+            };
+            let mut ec: ExecutionContext<'_> = ExecutionContext::new(&scheme);
+            ec.set_field_value(field, LhsValue::Bytes(h.clone().into())).expect("bytes value for a Bytes field");
+            st.eval();
+            let got = catch(|| f.execute(&ec));
+            if !matches!(got, Ok(Ok(b)) if b == want) {
+                return Err(Fail::new(
+                    "contains-in-chain-mismatch/siblings",
+                    format!("`{text}`: engine {got:?}, naive scans joined give {want}"),
+                    json!({"filter": text, "haystack": show_bytes(h), "expected": want}),
+                ));
+            }
+        }
+        st.class("siblings:joined-in-one-filter");
+    }
     // drop some, compile them again (others still alive), check again
     for i in 0..filters.len() {
         if ch.boolean() {
